@@ -489,6 +489,13 @@ impl Drop for Endpoint {
 }
 
 fn do_read(conn: &Conn, side: usize, cx: &mut Context<'_>, out: &mut [u8]) -> Poll<io::Result<usize>> {
+    let r = do_read_inner(conn, side, cx, out);
+    if crate::live_trace() {
+        eprintln!("    read  conn {} side {} -> {:?}", conn.id, side, r);
+    }
+    r
+}
+fn do_read_inner(conn: &Conn, side: usize, cx: &mut Context<'_>, out: &mut [u8]) -> Poll<io::Result<usize>> {
     let io = conn.io.lock().unwrap()[side];
     if !io.raw && maybe_yield(io.yield_pm, cx) {
         return Poll::Pending;
@@ -540,6 +547,13 @@ fn do_read(conn: &Conn, side: usize, cx: &mut Context<'_>, out: &mut [u8]) -> Po
 }
 
 fn do_write(conn: &Conn, side: usize, cx: &mut Context<'_>, data: &[u8]) -> Poll<io::Result<usize>> {
+    let r = do_write_inner(conn, side, cx, data);
+    if crate::live_trace() {
+        eprintln!("    write conn {} side {} {}B -> {:?}", conn.id, side, data.len(), r);
+    }
+    r
+}
+fn do_write_inner(conn: &Conn, side: usize, cx: &mut Context<'_>, data: &[u8]) -> Poll<io::Result<usize>> {
     let io = conn.io.lock().unwrap()[side];
     if !io.raw && maybe_yield(io.wyield_pm, cx) {
         conn.dir(side).write_pendings += 1;
@@ -726,7 +740,14 @@ impl futures::AsyncWrite for WriteHalf {
     fn poll_write(self: Pin<&mut Self>, cx: &mut Context<'_>, data: &[u8]) -> Poll<io::Result<usize>> {
         do_write(&self.ep.conn, self.ep.side, cx, data)
     }
-    fn poll_flush(self: Pin<&mut Self>, _: &mut Context<'_>) -> Poll<io::Result<()>> {
+    fn poll_flush(self: Pin<&mut Self>, cx: &mut Context<'_>) -> Poll<io::Result<()>> {
+        // a flush is one more place where a real transport may answer Pending: a suspension point
+        // between "all bytes accepted" and "send returns"
+        let io = self.ep.conn.io.lock().unwrap()[self.ep.side];
+        if !io.raw && maybe_yield(io.wyield_pm / 2, cx) {
+            self.ep.conn.dir(self.ep.side).write_pendings += 1;
+            return Poll::Pending;
+        }
         Poll::Ready(Ok(()))
     }
     fn poll_close(self: Pin<&mut Self>, _: &mut Context<'_>) -> Poll<io::Result<()>> {
